@@ -411,6 +411,9 @@ impl<T: Actor> ActorRef<T> {
         tracing::instrument(level = "info", name = "actor_kill", skip(self))
     )]
     pub fn kill(&self) -> Result<()> {
+        #[cfg(rsactor_verif)]
+        let _verif_kill = crate::__verif::KillGuard::start(self.identity().id);
+
         #[cfg(feature = "tracing")]
         info!(actor_id = %self.identity(), "Killing actor");
 
